@@ -131,7 +131,7 @@ func (x *Exec) enter(s *State, fn *ssa.Function, args []Val, free []Val, callIns
 		x.unsup("loop binding: %s", la.err)
 	}
 	fr := &Frame{fn: fn, regs: map[ssa.Value]Val{}, parent: par, callInstr: callInstr, freeVars: free, depth: depth, kind: kind,
-		block: fn.Blocks[0], loopSeen: map[*ssa.BasicBlock]bool{}}
+		block: fn.Blocks[0], loopSeen: map[*ssa.BasicBlock]bool{}, locals: map[string]localRef{}}
 	if len(args) != len(fn.Params) {
 		x.unsup("arity mismatch calling %s", fn)
 	}
@@ -299,6 +299,7 @@ func (x *Exec) builtin(s *State, v *ssa.Call, b *ssa.Builtin) bool {
 		mt := args[0].Type().Underlying().(*types.Map)
 		dom, _ := w.mapArrays(mt)
 		k := s.keyTerm(args[1], mt.Key())
+		s.markWrite(dom, m)
 		s.setH(dom, mkStore(s.H(dom), m, mkStore(mkSelect(s.H(dom), m), k, tFalse)))
 	case "copy":
 		x.unsup("copy builtin")
@@ -354,6 +355,7 @@ func (x *Exec) appendOp(s *State, v *ssa.Call) {
 		add(ro, sLen(a)).S, j, j, add(ro, newLen).S, rowB.S, sOff(b).S, j, add(ro, sLen(a)).S,
 		ro.S, j, j, add(ro, sLen(a)).S, oldRowA.S, sOff(a).S, j, ro.S,
 		mkIte(mkEq(ra, freshArr), Term{fmt.Sprintf("((as const %s) %s)", sortText(nrow.Sort), w.zeroOf(st.Elem()).S), nrow.Sort}, tgtOld).S, j), "Bool"})
+	s.dirty[arr] = true
 	s.setH(arr, mkStore(H, ra, nrow))
 	s.set(v, res)
 }
@@ -606,11 +608,15 @@ func (x *Exec) applyContract(s *State, c *Contract, key string, sig *types.Signa
 	}
 	post.alloc = s.alloc
 	x.bindLets(post, c, true)
+	post.noLabels = true
 	for _, e := range c.Ensures {
 		if strings.HasPrefix(e.Kind, "onpanic") {
 			continue
 		}
-		t, err := post.evalBool(e.Expr, e.Src)
+		t, err, internal := evalExternal(post, e)
+		if internal {
+			continue // speaks about the callee's own labels: not visible to callers
+		}
 		if err != nil {
 			x.unsup("%v (%s)", err, e.Where)
 		}
@@ -627,7 +633,9 @@ func (x *Exec) applyContract(s *State, c *Contract, key string, sig *types.Signa
 		for i, r := range rs {
 			rvs = append(rvs, SVal{t: r.(Term), gt: res.At(i).Type()})
 		}
-		s.setLabel(lbl, rvs)
+		argEnv := &Env{s: s, vars: map[string]SVal{}}
+		x.bindCallArgs(argEnv, s, callInstr)
+		s.setLabel(lbl, rvs, argEnv.vars)
 		if panicState != nil {
 			panicLabel = lbl + "_panic"
 		}
@@ -643,11 +651,15 @@ func (x *Exec) applyContract(s *State, c *Contract, key string, sig *types.Signa
 			penv.vars[k] = v
 		}
 		penv.vars["$panic"] = SVal{t: pv}
+		penv.noLabels = true
 		for _, e := range c.Ensures {
 			if e.Kind != "onpanic" {
 				continue
 			}
-			t, err := penv.evalBool(e.Expr, e.Src)
+			t, err, internal := evalExternal(penv, e)
+			if internal {
+				continue
+			}
 			if err != nil {
 				x.unsup("%v (%s)", err, e.Where)
 			}
@@ -656,12 +668,28 @@ func (x *Exec) applyContract(s *State, c *Contract, key string, sig *types.Signa
 		ps.panicVal = &pv
 		ps.unwind = true
 		if panicLabel != "" {
-			ps.setLabel(panicLabel, []SVal{{t: pv}})
+			ps.setLabel(panicLabel, []SVal{{t: pv}}, nil)
 		}
 		ps.comment("callee %s panics (frame %s, %d deferred calls pending)", key, ps.frame.fn.Name(), len(ps.frame.defers))
 		x.work = append(x.work, ps)
 	}
 	return x.finishCall(s, callInstr, rs, kind)
+}
+
+// evalExternal evaluates a postcondition for use at a call site; clauses that
+// mention the callee's internal labels are reported as internal.
+func evalExternal(env *Env, e *Clause) (t Term, err error, internal bool) {
+	defer func() {
+		if r := recover(); r != nil {
+			if _, ok := r.(labelUse); ok {
+				internal = true
+				return
+			}
+			panic(r)
+		}
+	}()
+	t, err = env.evalBool(e.Expr, e.Src)
+	return
 }
 
 func (x *Exec) posOf(in ssa.Instruction) string {
@@ -671,8 +699,9 @@ func (x *Exec) posOf(in ssa.Instruction) string {
 	return x.pos(in)
 }
 
-// bindLets evaluates the contract's let declarations. oldlet values are
-// evaluated in the pre-state.
+// bindLets binds the contract's let declarations as lazily evaluated macros
+// (so that they may mention labels that exist on some paths only). oldlet
+// values are evaluated once, in the pre-state.
 func (x *Exec) bindLets(env *Env, c *Contract, post bool) {
 	for _, l := range c.Lets {
 		if l.Old {
@@ -682,18 +711,7 @@ func (x *Exec) bindLets(env *Env, c *Contract, post bool) {
 			}
 			continue
 		}
-		func() {
-			defer func() {
-				if r := recover(); r != nil {
-					if _, ok := r.(specErr); ok && !post {
-						return // may mention results; retried in the post-state
-					}
-					panic(r)
-				}
-			}()
-			v := env.eval(l.Expr)
-			env.vars[l.Name] = SVal{t: env.rv(v), gt: v.gt}
-		}()
+		env.vars[l.Name] = SVal{macro: l.Expr}
 	}
 }
 
@@ -702,8 +720,13 @@ func (x *Exec) siteAsserts(s *State, calleeKey string, callInstr ssa.Instruction
 	if x.contract == nil || callInstr == nil || s.frame.fn != x.entry {
 		return
 	}
+	ci, isCall := callInstr.(ssa.CallInstruction)
+	if !isCall {
+		return
+	}
 	n := x.calleeOrdinal(s.frame.fn, calleeKey, callInstr)
-	key := fmt.Sprintf("call %s #%d", calleeKey, n)
+	key := fmt.Sprintf("call %s #%d", calleeKeyOf(ci), n)
+	x.boundSites[key] = true
 	cls := x.contract.Sites[key]
 	if len(cls) == 0 {
 		return
